@@ -10,6 +10,7 @@ import Blue.Proofs.ManiDamage
 import Blue.Proofs.LogFrameDamage
 import Blue.Proofs.LogZeroFrame
 import Blue.Proofs.LogFragment
+import Blue.Proofs.LogDamageMulti
 import Blue.Proofs.SstDamage
 import Blue.Proofs.SstDamageImage
 import Blue.Proofs.SstDamageExamples
@@ -66,6 +67,23 @@ single-bit flip, every truncation, overwrites, suffixes, short sequences).
   transaction, then an error; `separator_damage_detected`, `final_newline_damage_detected` need no
   hypothesis.  No theorem discharges the hypotheses for CRC-32C.  (For a single flipped bit it is a
   fact about the polynomial, observed at every bit of every file by the run; not formalised.)
+* *Log, damage to any bytes* (block `LogDamageMulti`, `Blue/Proofs/LogDamageMulti.lean`): the damaged
+  image has the length of the log and is otherwise arbitrary — a region spanning a header and its
+  payload, several frames, several appends, padding; several regions.  `log_damage_any_region`,
+  `log_damage_several_regions` (both from `log_damage_anywhere`): the file reads as the pristine log
+  or the reader delivers exactly the batches before an append the damage overlaps and reports an
+  error there, the replay fails — never a batch that was not appended, never one skipped.
+  Hypotheses per frame of the log WHOSE BYTES CHANGED (theorems for intact frames,
+  `frame_hyps_of_untouched`): `FrameNoCollision` (if the damaged file still shows a header there
+  whose payload has the CRC it records, it is the original payload at the original extent),
+  `DiscKept` (first frame of an append: the discriminant reads as written or as neither `WHOLE` nor
+  `FIRST`), `NoFrameAt` (leading padding whose first byte changed spells no frame that passes its
+  CRC).  Excluded: exactly `ZeroedFrameInPadWindow` at a frame offset = finding D-29;
+  `log_damage_outside_d29_never_silent` is the contrapositive (a silent loss implies that class).
+  One discriminant flipped, anywhere in the log, is a table: `log_disc_flip_table`,
+  `log_whole_not_whole_detected`, `log_whole_to_first_detected` (a `WHOLE` read as `FIRST` with
+  further appends behind it is an error: behind the end of an append the log never shows a `SECOND`
+  frame).
 * *Not detected, by design of the formats* (findings, see the run's KNOWN-FINDING lines):
   `final_block_metadata_not_detected` (D-10).  (D-11 — the log reader took a zeroed header-length
   byte close to a block boundary for padding and dropped the frame — is repaired:
@@ -704,8 +722,8 @@ theorem batch_fragment_entries_prefix (b : List Nat) (n F F' : Nat) (hF' : b.len
   Blue.Damage.batchEntries_take b n F F' hF'
 
 /-- **the discriminant of the LAST append's `WHOLE` frame turned into anything else** (`FIRST`
-    included): detected.  (With further appends behind it a `WHOLE` turned `FIRST` runs into the next
-    append — an error in every case of the run; not a theorem, see `partial`.) -/
+    included): detected.  (With further appends behind it: `log_whole_not_whole_detected` /
+    `log_whole_to_first_detected` in the block `LogDamageMulti` below.) -/
 theorem log_whole_not_whole_at_eof_detected (g : Good P) (bufs1 : List (List Nat)) (b : List Nat)
     (hsz : ∀ x ∈ bufs1, x.length ≤ P.tableFull) (hb : b.length ≤ P.tableFull)
     (d : List Nat) (hlen : d.length = (writeAll P (bufs1 ++ [b]) 0).length)
@@ -907,6 +925,270 @@ example : Blue.Damage.LineCrcDetects (fun _ => 0) [49, 48, 48, 48, 48, 48, 48, 4
 /-- `Edit.Canon` holds for what `Edit::add` builds in sorted order -/
 example : (⟨[], [[97], [98]], []⟩ : Blue.Mani.Edit).Canon := by decide
 
+-- BEGIN LogDamageMulti
+/-! ## log: damage to ANY region — a header together with its payload, several frames, several
+    appends, padding — and to several regions (`Blue/Proofs/LogDamageMulti.lean`)
+
+The damaged image `d` has the length of the log and is otherwise arbitrary.  Hypotheses, each asked
+only of a frame of the log whose bytes CHANGED (`slice d s _ ≠ frame P disc p`; for a frame whose
+bytes are intact they are theorems, `frameHyp_of_untouched`):
+`FrameNoCollision` (the CRC hypothesis, `NoCollisionAt` style: if the damaged file still shows at the
+frame's offset a header whose payload bytes lie inside the file and have the CRC that header
+records, these are the original payload bytes at the original extent), `DiscKept` (the
+discriminant, which no checksum covers, of the first frame of an append reads as the original one
+or as neither `WHOLE` nor `FIRST`; single flips: `log_disc_flip_table`), `NoFrameAt` (leading
+padding whose first byte changed does not spell a frame that passes its CRC: `padding_injection`).
+Excluded: exactly `ZeroedFrameInPadWindow` at a frame offset (finding D-29). -/
+section logdamagemulti
+open Blue.Log Blue.Damage
+variable {P : Params}
+
+/-- **any damage to any bytes** (same length), hypotheses on the changed frames only: the file reads
+    as the pristine log, or the reader delivers the batches before an append whose bytes changed and
+    reports an error there -/
+theorem log_damage_anywhere (g : Good P) (bufs : List (List Nat)) (hsz : ∀ x ∈ bufs, x.length ≤ P.tableFull)
+    (d : List Nat) (hlen : d.length = (writeAll P bufs 0).length)
+    (hyp : ∀ bufs1 b bufs2, bufs = bufs1 ++ b :: bufs2 →
+      TouchedHyp P d (startOf P bufs1) b ∧ TouchedNotD29 P d (startOf P bufs1) b) :
+    (∀ k, readSome P d (bufs.length + 1 + k) 0 = (bufs, false))
+    ∨ ∃ bufs1 b bufs2, bufs = bufs1 ++ b :: bufs2
+        ∧ slice d (startOf P bufs1) (appendAt P 2 (startOf P bufs1) b).length ≠ appendAt P 2 (startOf P bufs1) b
+        ∧ nextBatch P d 2 (startOf P bufs1) = .err
+        ∧ ∀ k, readSome P d (bufs.length + 1 + k) 0 = (bufs1, true) :=
+  Blue.Log.log_damage_anywhere g bufs hsz d hlen hyp
+
+/-- **(1) damage to any contiguous region `[lo, hi)`** — spanning a header and its payload, several
+    frames, several appends, padding: the file reads as the pristine log (every changed frame still
+    decodes to what was written), or the reader delivers exactly the batches before an append that
+    the region overlaps and reports an error there; `LogIterator` drained, `log_to_builder` and
+    `log_to_setsum` fail.  Never a batch that was not appended, never a batch skipped. -/
+theorem log_damage_any_region (g : Good P) (bufs : List (List Nat)) (hsz : ∀ x ∈ bufs, x.length ≤ P.tableFull)
+    (d : List Nat) (hlen : d.length = (writeAll P bufs 0).length) (lo hi : Nat)
+    (hag : ∀ i, i < lo ∨ hi ≤ i → d[i]? = (writeAll P bufs 0)[i]?)
+    (hyp : ∀ bufs1 b bufs2, bufs = bufs1 ++ b :: bufs2 → TouchedHyp P d (startOf P bufs1) b)
+    (hnz : ∀ bufs1 b bufs2, bufs = bufs1 ++ b :: bufs2 → TouchedNotD29 P d (startOf P bufs1) b) :
+    (∀ k, readSome P d (bufs.length + 1 + k) 0 = (bufs, false))
+    ∨ ∃ bufs1 b bufs2, bufs = bufs1 ++ b :: bufs2
+        ∧ (lo < startOf P (bufs1 ++ [b]) ∧ startOf P bufs1 < hi)
+        ∧ nextBatch P d 2 (startOf P bufs1) = .err
+        ∧ (∀ k, readSome P d (bufs.length + 1 + k) 0 = (bufs1, true))
+        ∧ drain P d = deliver bufs1 true ∧ logToBuilder P d = .readerError ∧ logToSetsumOk P d = false :=
+  Blue.Log.log_damage_any_region g bufs hsz d hlen lo hi hag hyp hnz
+
+/-- **(2) finitely many damaged regions** (class `damage.log.several` of the harness) -/
+theorem log_damage_several_regions (g : Good P) (bufs : List (List Nat)) (hsz : ∀ x ∈ bufs, x.length ≤ P.tableFull)
+    (d : List Nat) (hlen : d.length = (writeAll P bufs 0).length) (rs : List (Nat × Nat))
+    (hag : ∀ i, (∀ r ∈ rs, i < r.1 ∨ r.2 ≤ i) → d[i]? = (writeAll P bufs 0)[i]?)
+    (hyp : ∀ bufs1 b bufs2, bufs = bufs1 ++ b :: bufs2 → TouchedHyp P d (startOf P bufs1) b)
+    (hnz : ∀ bufs1 b bufs2, bufs = bufs1 ++ b :: bufs2 → TouchedNotD29 P d (startOf P bufs1) b) :
+    (∀ k, readSome P d (bufs.length + 1 + k) 0 = (bufs, false))
+    ∨ ∃ bufs1 b bufs2, bufs = bufs1 ++ b :: bufs2
+        ∧ (∃ r ∈ rs, r.1 < startOf P (bufs1 ++ [b]) ∧ startOf P bufs1 < r.2)
+        ∧ nextBatch P d 2 (startOf P bufs1) = .err
+        ∧ (∀ k, readSome P d (bufs.length + 1 + k) 0 = (bufs1, true))
+        ∧ drain P d = deliver bufs1 true ∧ logToBuilder P d = .readerError ∧ logToSetsumOk P d = false :=
+  Blue.Log.log_damage_several_regions g bufs hsz d hlen rs hag hyp hnz
+
+/-- **(4) finding D-29 characterised exactly**: under the checksum and discriminant hypotheses
+    alone, an image read neither as the pristine log nor as a prefix of the batches followed by an
+    error has a frame offset of the log in the class `ZeroedFrameInPadWindow` -/
+theorem log_damage_outside_d29_never_silent (g : Good P) (bufs : List (List Nat))
+    (hsz : ∀ x ∈ bufs, x.length ≤ P.tableFull)
+    (d : List Nat) (hlen : d.length = (writeAll P bufs 0).length)
+    (hyp : ∀ bufs1 b bufs2, bufs = bufs1 ++ b :: bufs2 → TouchedHyp P d (startOf P bufs1) b) (k : Nat)
+    (hsilent : readSome P d (bufs.length + 1 + k) 0 ≠ (bufs, false)
+      ∧ ¬ ∃ bufs1 b bufs2, bufs = bufs1 ++ b :: bufs2 ∧ readSome P d (bufs.length + 1 + k) 0 = (bufs1, true)) :
+    ∃ bufs1 b bufs2 s disc p, bufs = bufs1 ++ b :: bufs2
+      ∧ (s, disc, p) ∈ framesOf P 2 (startOf P bufs1) b ∧ ZeroedFrameInPadWindow P d s :=
+  Blue.Log.log_damage_outside_d29_never_silent g bufs hsz d hlen hyp k hsilent
+
+/-- the per-frame hypotheses are theorems for a frame whose bytes are intact -/
+theorem frame_hyps_of_untouched (g : Good P) (d : List Nat) (s disc : Nat) (p : List Nat)
+    (hsz : p.length ≤ P.tableFull) (hdisc : disc < 128)
+    (hle : s + (frame P disc p).length ≤ d.length)
+    (hun : slice d s (frame P disc p).length = frame P disc p) :
+    FrameNoCollision P d s disc p ∧ DiscKept P d s disc ∧ ¬ ZeroedFrameInPadWindow P d s :=
+  Blue.Log.frameHyp_of_untouched g d s disc p hsz hdisc hle hun
+
+/-- **(3a) a `WHOLE` discriminant turned into anything else, `FIRST` included, with any appends
+    behind it**: the batches before, then an error (`log_whole_not_whole_at_eof_detected` without
+    the restriction to the last append) -/
+theorem log_whole_not_whole_detected (g : Good P) (bufs1 : List (List Nat)) (b : List Nat)
+    (bufs2 : List (List Nat))
+    (hsz : ∀ x ∈ bufs1, x.length ≤ P.tableFull) (hb : b.length ≤ P.tableFull)
+    (hsz2 : ∀ x ∈ bufs2, x.length ≤ P.tableFull)
+    (d : List Nat) (hlen : d.length = (writeAll P (bufs1 ++ b :: bufs2) 0).length)
+    (s : Nat) (p : List Nat)
+    (hmem : (s, WHOLE, p) ∈ framesOf P 2 (writeAll P bufs1 0).length b)
+    (hag : ∀ i, i < s ∨ payOff P s WHOLE p ≤ i → d[i]? = (writeAll P (bufs1 ++ b :: bufs2) 0)[i]?)
+    (hnc : ∀ h' o', nextHeader P d 2 s = .ok (h', o') → o' + h'.size ≤ d.length →
+      (o' = payOff P s WHOLE p ∧ h'.size = p.length ∧ h'.crc = P.crc p) ∨ P.crc (slice d o' h'.size) ≠ h'.crc)
+    (hne : nextHeader P d 2 s ≠ .eof)
+    (hchg : ∀ h' o', nextHeader P d 2 s = .ok (h', o') → h'.disc ≠ WHOLE) (k : Nat) :
+    readSome P d (bufs1.length + 1 + k) 0 = (bufs1, true) :=
+  Blue.Log.log_whole_not_whole_detected g bufs1 b bufs2 hsz hb hsz2 d hlen s p hmem hag hnc hne hchg k
+
+/-- **(3b) `WHOLE` read as `FIRST` with further appends behind it is an error**: where the reader
+    looks for the `SECOND` half the pristine log has the end of the file, a byte that is not
+    padding, or the next append's `WHOLE` / `FIRST` frame -/
+theorem log_whole_to_first_detected (g : Good P) (bufs1 : List (List Nat)) (b : List Nat)
+    (bufs2 : List (List Nat))
+    (hsz : ∀ x ∈ bufs1, x.length ≤ P.tableFull) (hb : b.length ≤ P.tableFull)
+    (hsz2 : ∀ x ∈ bufs2, x.length ≤ P.tableFull)
+    (d : List Nat) (hlen : d.length = (writeAll P (bufs1 ++ b :: bufs2) 0).length)
+    (s : Nat) (p : List Nat)
+    (hmem : (s, WHOLE, p) ∈ framesOf P 2 (writeAll P bufs1 0).length b)
+    (hag : ∀ i, i < s ∨ payOff P s WHOLE p ≤ i → d[i]? = (writeAll P (bufs1 ++ b :: bufs2) 0)[i]?)
+    (hflip : nextHeader P d 2 s = .ok (⟨p.length, FIRST, P.crc p⟩, payOff P s WHOLE p)) (k : Nat) :
+    readSome P d (bufs1.length + 1 + k) 0 = (bufs1, true) :=
+  Blue.Log.log_whole_to_first_detected g bufs1 b bufs2 hsz hb hsz2 d hlen s p hmem hag hflip k
+
+/-- **(3c) the table of discriminant flips**, one frame `(s, disc, p)` of any append of any log read
+    with the discriminant `disc'` (size, checksum, payload offset as written): the same
+    discriminant — the file reads as the pristine log; `FIRST` read as `WHOLE` — the batches before,
+    the fragment `b.take n`, then an error (at the level of entries still a prefix:
+    `log_first_as_whole_entries_prefix`); every other pair (`WHOLE` as `FIRST`, `WHOLE` / `FIRST` as
+    `SECOND` or an unknown value, `SECOND` as anything else) — the batches before, then an error -/
+theorem log_disc_flip_table (g : Good P) (bufs1 : List (List Nat)) (b : List Nat)
+    (bufs2 : List (List Nat))
+    (hsz : ∀ x ∈ bufs1, x.length ≤ P.tableFull) (hb : b.length ≤ P.tableFull)
+    (hsz2 : ∀ x ∈ bufs2, x.length ≤ P.tableFull)
+    (d : List Nat) (hlen : d.length = (writeAll P (bufs1 ++ b :: bufs2) 0).length)
+    (s disc : Nat) (p : List Nat)
+    (hmem : (s, disc, p) ∈ framesOf P 2 (writeAll P bufs1 0).length b)
+    (hag : ∀ i, i < s ∨ payOff P s disc p ≤ i → d[i]? = (writeAll P (bufs1 ++ b :: bufs2) 0)[i]?)
+    (disc' : Nat)
+    (hflip : nextHeader P d 2 s = .ok (⟨p.length, disc', P.crc p⟩, payOff P s disc p)) :
+    (disc' = disc → ∀ n, readSome P d n 0 = readSome P (writeAll P (bufs1 ++ b :: bufs2) 0) n 0)
+    ∧ (disc = FIRST → disc' = WHOLE →
+        ∃ n, p = b.take n ∧ ∀ k, readSome P d (bufs1.length + 2 + k) 0 = (bufs1 ++ [b.take n], true))
+    ∧ (disc' ≠ disc → ¬ (disc = FIRST ∧ disc' = WHOLE) →
+        ∀ k, readSome P d (bufs1.length + 1 + k) 0 = (bufs1, true)) :=
+  Blue.Log.log_disc_flip_table g bufs1 b bufs2 hsz hb hsz2 d hlen s disc p hmem hag disc' hflip
+
+/-- `FrameNoCollision` follows from the CRC hypotheses of the single-region theorems together -/
+theorem frame_no_collision_of_header_and_payload (d : List Nat) (s disc : Nat) (p : List Nat)
+    (hH : ∀ h' o', nextHeader P d 1 s = .ok (h', o') → o' + h'.size ≤ d.length →
+      (o' = payOff P s disc p ∧ h'.size = p.length ∧ h'.crc = P.crc p) ∨ P.crc (slice d o' h'.size) ≠ h'.crc)
+    (hP : P.crc (slice d (payOff P s disc p) p.length) = P.crc p → slice d (payOff P s disc p) p.length = p) :
+    FrameNoCollision P d s disc p :=
+  Blue.Log.frameNoCollision_of_parts d s disc p hH hP
+
+/-- **`DiscKept` cannot be dropped when the damage spans two appends** (toy parameters): the
+    discriminant byte of the 2nd append overwritten with `FIRST` and that of the 3rd with `SECOND` —
+    every frame passes its CRC check (`ncCheck`), and the reader delivers the two batches fused into
+    one that was never appended, without an error.  The entries `LogIterator::next` hands out are
+    those of the concatenated buffers, i.e. the genuine entries in order. -/
+theorem disc_fusion :
+    readSome toyFrameParams toy3Log 4 0 = ([[1, 2, 3], [4, 5], [6]], false)
+    ∧ readSome toyFrameParams toy3Fused 4 0 = ([[1, 2, 3], [4, 5, 6]], false)
+    ∧ logCheck toyFrameParams true toy3Fused toy3 0 = false
+    ∧ ncCheck toyFrameParams toy3Fused 7 WHOLE [4, 5] = true
+    ∧ ncCheck toyFrameParams toy3Fused 16 WHOLE [6] = true
+    ∧ dcCheck toyFrameParams toy3Fused 7 WHOLE = false :=
+  Blue.Log.disc_fusion_example
+
+/-! ### non-vacuity (toy parameters `B = 16`, `H = 4`; the hypotheses decided by `logCheck`) -/
+
+/-- the toy logs and what the reader makes of the damaged images -/
+example :
+    toy3Log = [3, 3, 1, 6, 1, 2, 3,  3, 2, 1, 9, 4, 5,  0, 0, 0,  3, 1, 1, 6, 6]
+    ∧ readSome toyFrameParams toy3Log 4 0 = (toy3, false)
+    ∧ readSome toyFrameParams toy3HdrPay 4 0 = ([[1, 2, 3]], true)
+    ∧ readSome toyFrameParams toy3TwoAppends 4 0 = ([[1, 2, 3]], true)
+    ∧ readSome toyFrameParams toy3TwoRegions 4 0 = ([], true)
+    ∧ readSome toyFrameParams toy3WholeFirst 4 0 = ([[1, 2, 3]], true) := by decide
+
+/-- (1) on damage spanning the header (checksum field) and the payload of the 2nd append -/
+example := log_damage_any_region good_toyFrame toy3 (by decide) toy3HdrPay (by decide) 10 12
+    (agree_of_bounded _ _ (by decide) _
+      (by decide : ∀ i, i < toy3HdrPay.length → (i < 10 ∨ 12 ≤ i) → toy3HdrPay[i]? = toy3Log[i]?))
+    (fun b1 b b2 h => (hyps_of_logCheck (z := true) (by decide) b1 b b2 h).1)
+    (fun b1 b b2 h => (hyps_of_logCheck (z := true) (by decide) b1 b b2 h).2 rfl)
+
+/-- (1) on damage spanning the 2nd append's payload, the padding and the 3rd append -/
+example := log_damage_any_region good_toyFrame toy3 (by decide) toy3TwoAppends (by decide) 12 21
+    (agree_of_bounded _ _ (by decide) _
+      (by decide : ∀ i, i < toy3TwoAppends.length → (i < 12 ∨ 21 ≤ i) → toy3TwoAppends[i]? = toy3Log[i]?))
+    (fun b1 b b2 h => (hyps_of_logCheck (z := true) (by decide) b1 b b2 h).1)
+    (fun b1 b b2 h => (hyps_of_logCheck (z := true) (by decide) b1 b b2 h).2 rfl)
+
+/-- `log_damage_anywhere` on the same image -/
+example := log_damage_anywhere good_toyFrame toy3 (by decide) toy3TwoAppends (by decide)
+    (fun b1 b b2 h => ⟨(hyps_of_logCheck (z := true) (by decide) b1 b b2 h).1,
+      (hyps_of_logCheck (z := true) (by decide) b1 b b2 h).2 rfl⟩)
+
+/-- (2) on two disjoint regions -/
+example := log_damage_several_regions good_toyFrame toy3 (by decide) toy3TwoRegions (by decide) [(5, 6), (20, 21)]
+    (agree_of_bounded _ _ (by decide) _
+      (by decide : ∀ i, i < toy3TwoRegions.length → (∀ r ∈ [(5, 6), (20, 21)], i < r.1 ∨ r.2 ≤ i) →
+        toy3TwoRegions[i]? = toy3Log[i]?))
+    (fun b1 b b2 h => (hyps_of_logCheck (z := true) (by decide) b1 b b2 h).1)
+    (fun b1 b b2 h => (hyps_of_logCheck (z := true) (by decide) b1 b b2 h).2 rfl)
+
+/-- **the exclusion of D-29 is needed**: an empty batch's `WHOLE` frame at 12..16, inside the padding
+    window of the boundary 16, overwritten with zeros — every checksum / discriminant / padding
+    hypothesis holds (`logCheck … false`), the frame offset 12 is in the class, and the reader
+    delivers the first and the third batch and ends cleanly: the second is lost in silence -/
+example :
+    logCheck toyFrameParams false toyD29Zeroed toyD29 0 = true
+    ∧ logCheck toyFrameParams true toyD29Zeroed toyD29 0 = false
+    ∧ framesOf toyFrameParams 2 12 [] = [(12, WHOLE, [])]
+    ∧ ZeroedFrameInPadWindow toyFrameParams toyD29Zeroed 12
+    ∧ readSome toyFrameParams toyD29Log 4 0 = (toyD29, false)
+    ∧ readSome toyFrameParams toyD29Zeroed 4 0 = ([[1, 2, 3, 4, 5, 6, 7, 8], [6]], false) := by decide
+
+/-- (4) on that instance: the hypotheses of `log_damage_outside_d29_never_silent` hold together -/
+example := log_damage_outside_d29_never_silent good_toyFrame toyD29 (by decide) toyD29Zeroed (by decide)
+    (fun b1 b b2 h => (hyps_of_logCheck (z := false) (by decide) b1 b b2 h).1) 0
+    ⟨by decide, fun ⟨_, _, _, _, h⟩ =>
+      absurd (show false = true from congrArg Prod.snd
+        ((by decide : readSome toyFrameParams toyD29Zeroed (toyD29.length + 1 + 0) 0
+            = ([[1, 2, 3, 4, 5, 6, 7, 8], [6]], false)).symm.trans h)) (by decide)⟩
+
+/-- (3a), (3b), (3c) on the 2nd append's discriminant byte overwritten with `FIRST`, the 3rd append
+    behind it -/
+example := log_whole_to_first_detected good_toyFrame [[1, 2, 3]] [4, 5] [[6]] (by decide) (by decide) (by decide)
+    toy3WholeFirst (by decide) 7 [4, 5] (by decide)
+    (agree_of_bounded _ _ (by decide) _
+      (by decide : ∀ i, i < toy3WholeFirst.length → (i < 7 ∨ payOff toyFrameParams 7 WHOLE [4, 5] ≤ i) →
+        toy3WholeFirst[i]? = (writeAll toyFrameParams ([[1, 2, 3]] ++ [4, 5] :: [[6]]) 0)[i]?))
+    (by rfl) 0
+example := log_whole_not_whole_detected good_toyFrame [[1, 2, 3]] [4, 5] [[6]] (by decide) (by decide) (by decide)
+    toy3WholeFirst (by decide) 7 [4, 5] (by decide)
+    (agree_of_bounded _ _ (by decide) _
+      (by decide : ∀ i, i < toy3WholeFirst.length → (i < 7 ∨ payOff toyFrameParams 7 WHOLE [4, 5] ≤ i) →
+        toy3WholeFirst[i]? = (writeAll toyFrameParams ([[1, 2, 3]] ++ [4, 5] :: [[6]]) 0)[i]?))
+    (fun h' o' hv _ => .inl (by
+      rw [show nextHeader toyFrameParams toy3WholeFirst 2 7 = .ok (⟨2, FIRST, 9⟩, 11) from rfl] at hv
+      injection hv with hv; injection hv with e1 e2; subst e1; subst e2; exact ⟨rfl, rfl, rfl⟩))
+    (by rw [show nextHeader toyFrameParams toy3WholeFirst 2 7 = .ok (⟨2, FIRST, 9⟩, 11) from rfl]
+        intro h; cases h)
+    (fun h' o' hv => by
+      rw [show nextHeader toyFrameParams toy3WholeFirst 2 7 = .ok (⟨2, FIRST, 9⟩, 11) from rfl] at hv
+      injection hv with hv; injection hv with e1 e2; subst e1; show FIRST ≠ WHOLE; decide) 0
+example := (log_disc_flip_table good_toyFrame [[1, 2, 3]] [4, 5] [[6]] (by decide) (by decide) (by decide)
+    toy3WholeFirst (by decide) 7 WHOLE [4, 5] (by decide)
+    (agree_of_bounded _ _ (by decide) _
+      (by decide : ∀ i, i < toy3WholeFirst.length → (i < 7 ∨ payOff toyFrameParams 7 WHOLE [4, 5] ≤ i) →
+        toy3WholeFirst[i]? = (writeAll toyFrameParams ([[1, 2, 3]] ++ [4, 5] :: [[6]]) 0)[i]?))
+    FIRST (by rfl)).2.2 (by decide) (by decide)
+
+/-- `frame_hyps_of_untouched` on the intact first frame of the damaged toy log -/
+example := frame_hyps_of_untouched good_toyFrame toy3HdrPay 0 WHOLE [1, 2, 3] (by decide) (by decide)
+    (by decide) (by decide)
+
+/-- `frame_no_collision_of_header_and_payload` on the 2nd frame of the damaged toy log: the header
+    shown there records a checksum the payload bytes do not have -/
+example := frame_no_collision_of_header_and_payload (P := toyFrameParams) toy3HdrPay 7 WHOLE [4, 5]
+    (fun h' o' hv _ => .inr (by
+      rw [show nextHeader toyFrameParams toy3HdrPay 1 7 = .ok (⟨2, WHOLE, 8⟩, 11) from rfl] at hv
+      injection hv with hv; injection hv with e1 e2; subst e1; subst e2; decide))
+    (by decide)
+
+end logdamagemulti
+-- END LogDamageMulti
+
 end Blue.Props.C09
 
 #print axioms Blue.Props.C09.constants_from_source
@@ -978,3 +1260,13 @@ end Blue.Props.C09
 #print axioms Blue.Props.C09.log_first_as_whole_fragment
 #print axioms Blue.Props.C09.batch_fragment_entries_prefix
 #print axioms Blue.Props.C09.log_whole_not_whole_at_eof_detected
+#print axioms Blue.Props.C09.log_damage_anywhere
+#print axioms Blue.Props.C09.log_damage_any_region
+#print axioms Blue.Props.C09.log_damage_several_regions
+#print axioms Blue.Props.C09.log_damage_outside_d29_never_silent
+#print axioms Blue.Props.C09.frame_hyps_of_untouched
+#print axioms Blue.Props.C09.log_whole_not_whole_detected
+#print axioms Blue.Props.C09.log_whole_to_first_detected
+#print axioms Blue.Props.C09.log_disc_flip_table
+#print axioms Blue.Props.C09.frame_no_collision_of_header_and_payload
+#print axioms Blue.Props.C09.disc_fusion
